@@ -1506,7 +1506,7 @@ Section Inv.
     replace (two64 <=? size * len pu) with false by (symmetry; apply N.leb_gt; lia).
     rewrite <- (app_nil_r (values_to_bytes pu)).
     replace (size * len pu) with (len (values_to_bytes pu)) by (rewrite len_values_to_bytes; lia).
-    rewrite rd_skip_app; [|rewrite len_values_to_bytes; lia]. cbn [bind]. reflexivity.
+    rewrite rd_skip_app; [|rewrite len_values_to_bytes; lia]. cbn [bind fst]. reflexivity.
   Qed.
 
   (* ---- the baseline a commit records its changes against, and a valid record ------------------------------ *)
@@ -1716,7 +1716,8 @@ Section Inv.
     cv_rollback s = (s', r) ->
     (exists ch, parse_change bs = Ok ch /\
       ((ch_truncated_start T ch <= s_stored_len s /\ r = Ok tt /\ InvG s' hd ents mem /\ view s' mem = b /\
-        cv_stamp s' = pst /\ BaseOK s' mem b /\ s_changes s' = s_changes s /\ s_ssc s' = s_ssc s)
+        cv_stamp s' = pst /\ BaseOK s' mem b /\ s_changes s' = s_changes s /\ s_ssc s' = s_ssc s /\
+        s_stored_len s' = ch_truncated_start T ch /\ s_prev_stored_len s' = ch_truncated_start T ch)
        \/ (s_stored_len s < ch_truncated_start T ch /\ r = Err EIndexTooHigh /\ s' = s))).
   Proof.
     intros HI Hd Hl (ch & Hp & Hps & Hts & Hb & Hnil) Hpst HR.
@@ -1740,8 +1741,8 @@ Section Inv.
       split; [eapply InvG_len; [..|exact HIu]; cbn; try reflexivity; lia|].
       split; [unfold view; cbn; rewrite Hnil; now rewrite Hb|].
       split; [exact Hst'|].
-      split; [|tauto].
-      unfold BaseOK. cbn. rewrite Hnil. split; [lia|exact Hb].
+      split; [unfold BaseOK; cbn; rewrite Hnil; split; [lia|exact Hb]|].
+      split; [tauto|]. split; [tauto|]. split; [exact Hnil|exact Hnil].
     - inversion HR; subst s' r. clear HR.
       cbn [save_rollback_state set_prev set_pushed set_stored_len s_pushed s_stored_len s_hdr s_hdr_mod
            s_data s_pg s_ssc s_changes s_prev_pushed s_prev_stored_len cv_stamp].
@@ -1750,8 +1751,8 @@ Section Inv.
       split; [eapply InvG_len; [..|exact HIu]; cbn; try reflexivity; lia|].
       split; [unfold view; cbn; now rewrite Hb|].
       split; [exact Hst'|].
-      split; [|tauto].
-      unfold BaseOK. cbn. split; [lia|exact Hb].
+      split; [unfold BaseOK; cbn; split; [lia|exact Hb]|].
+      split; [tauto|]. split; [tauto|]. split; reflexivity.
   Qed.
   (* ---- edits between commits: push / truncate ------------------------------------------------------------- *)
   Definition is_edit (o : op) : Prop := match o with Push _ | Trunc _ => True | _ => False end.
@@ -1834,7 +1835,7 @@ Section Inv.
     rewrite Hp1 in Rec.
     destruct (rollback_ok s3 _ ents' ents' b (cv_stamp s) dir bs s4 r I3 ltac:(now rewrite T5)
                 ltac:(now rewrite Hst3) Rec Hps HR)
-      as (ch & Hpc & [(G & -> & I4 & V4 & St4 & B4 & C4 & K4)|(G & -> & ->)]).
+      as (ch & Hpc & [(G & -> & I4 & V4 & St4 & B4 & C4 & K4 & _ & _)|(G & -> & ->)]).
     - left. split.
       { unfold rollback_refuses. rewrite T5, C2, Hst3, Lk, Hpc. apply N.ltb_ge. exact G. }
       split; [reflexivity|].
@@ -1931,5 +1932,696 @@ Section Inv.
     apply Forall_app. split.
     - apply Forall_drop. eapply Forall_impl; [|exact Hf]. cbn. auto.
     - constructor; [now left|constructor].
+  Qed.
+
+  (* ==== the stack of retained records: chains of rollbacks of any depth (C04), counting (C16) ================ *)
+  Definition rec_ts (bs : list N) : N :=
+    match parse_change bs with Ok ch => ch_truncated_start T ch | _ => 0 end.
+
+  (* one retained record: its stamp, its bytes, the contents and the stamp it restores *)
+  Record sent := mkSent { k_st : N; k_bs : list N; k_b : list T; k_pst : N }.
+
+  Definition the_dir (s : cvs) : list (N * list N) := match s_changes s with Some d => d | None => [] end.
+  Definition stamps_le (dir : list (N * list N)) (c : N) : list N := filter (fun x => x <=? c) (map fst dir).
+
+  (* applying the records top-down succeeds: each one is valid over the pages `mem`, restores the stamp the next
+     one is filed under, and its truncation start does not exceed the stored length its predecessor leaves *)
+  Fixpoint StackOK (dir : list (N * list N)) (mem : list ent) (cur lim : N) (stk : list sent) : Prop :=
+    match stk with
+    | [] => True
+    | e :: rest =>
+        k_st e = cur /\ lookup_file dir (k_st e) = Some (k_bs e) /\ RecOK mem (k_bs e) (k_b e) (k_pst e) /\
+        k_pst e < k_st e /\ k_st e < two64 /\ rec_ts (k_bs e) <= lim /\
+        StackOK dir mem (k_pst e) (rec_ts (k_bs e)) rest
+    end.
+
+  Definition Chain (s : cvs) (mem : list ent) (stk : list sent) : Prop :=
+    NoDup (map fst (the_dir s)) /\
+    stamps_le (the_dir s) (cv_stamp s) = rev (map k_st stk) /\
+    StackOK (the_dir s) mem (cv_stamp s) (N.min (s_stored_len s) (s_prev_stored_len s)) stk.
+
+  Lemma StackOK_lim dir mem cur lim lim' stk : lim <= lim' -> StackOK dir mem cur lim stk -> StackOK dir mem cur lim' stk.
+  Proof. destruct stk as [|e rest]; [auto|]. cbn. intros H (A & B & C & D & E & F & G). repeat split; auto. lia. Qed.
+
+  Lemma StackOK_stamps dir mem cur lim stk : StackOK dir mem cur lim stk -> Forall (fun e => k_st e <= cur) stk.
+  Proof.
+    revert cur lim; induction stk as [|e rest IH]; intros cur lim H; [constructor|].
+    destruct H as (A & _ & _ & D & _ & _ & G). constructor; [lia|].
+    eapply Forall_impl; [|exact (IH _ _ G)]. cbn. intros x Hx. lia.
+  Qed.
+
+  Lemma lookup_in dir k v : lookup_file dir k = Some v -> In (k, v) dir.
+  Proof.
+    induction dir as [|[k' v'] t IH]; cbn [lookup_file]; [discriminate|].
+    destruct (k' =? k) eqn:E; intros H.
+    - apply N.eqb_eq in E. inversion H; subst. now left.
+    - right. auto.
+  Qed.
+  Lemma in_lookup dir k v : NoDup (map fst dir) -> In (k, v) dir -> lookup_file dir k = Some v.
+  Proof.
+    induction dir as [|[k' v'] t IH]; cbn [map fst lookup_file]; intros Hn Hi; [contradiction|].
+    inversion Hn as [|? ? Hnk Hnt]; subst. destruct Hi as [Hi|Hi].
+    - inversion Hi; subst. now rewrite N.eqb_refl.
+    - destruct (k' =? k) eqn:E; [|auto]. apply N.eqb_eq in E. subst k'.
+      exfalso. apply Hnk. apply in_map_iff. exists (k, v). auto.
+  Qed.
+
+  Lemma parse_rec_ts bs ch : parse_change bs = Ok ch -> rec_ts bs = ch_truncated_start T ch.
+  Proof. unfold rec_ts. now intros ->. Qed.
+
+  Lemma filter_all_id {A} (f : A -> bool) l : (forall x, In x l -> f x = true) -> filter f l = l.
+  Proof.
+    induction l as [|x l IH]; intros H; [reflexivity|]. cbn [filter].
+    rewrite (H x (or_introl eq_refl)). f_equal. apply IH. intros y Hy. apply H. now right.
+  Qed.
+
+  Lemma filter_filter_le a b (l : list N) : a <= b ->
+    filter (fun x => x <=? a) (filter (fun x => x <=? b) l) = filter (fun x => x <=? a) l.
+  Proof.
+    intros Hab. induction l as [|x l IHl]; [reflexivity|]. cbn [filter].
+    destruct (x <=? b) eqn:E1.
+    - cbn [filter]. destruct (x <=? a); now rewrite IHl.
+    - destruct (x <=? a) eqn:E2; [|exact IHl].
+      apply N.leb_le in E2. apply N.leb_gt in E1. lia.
+  Qed.
+
+  (* a rollback pops the stack *)
+  Theorem chain_rollback s hd ents mem e rest s' r :
+    InvG s hd ents mem -> Chain s mem (e :: rest) -> cv_rollback s = (s', r) ->
+    r = Ok tt /\ InvG s' hd ents mem /\ view s' mem = k_b e /\ cv_stamp s' = k_pst e /\
+    BaseOK s' mem (k_b e) /\ Chain s' mem rest /\ s_ssc s' = s_ssc s.
+  Proof.
+    intros HI (Hnd & Hst & (A & B & C & D & E & F & G)) HR.
+    assert (Hdir : exists dir, s_changes s = Some dir /\ the_dir s = dir).
+    { unfold the_dir in *. destruct (s_changes s) as [d|]; [eauto|]. cbn in B. discriminate. }
+    destruct Hdir as (dir & Hd & Hdd). rewrite Hdd in *.
+    assert (Hp : k_pst e < two64) by lia.
+    rewrite A in B.
+    destruct (rollback_ok s hd ents mem (k_b e) (k_pst e) dir (k_bs e) s' r HI Hd B C Hp HR)
+      as (ch & Hpc & [(Gd & -> & I' & V' & St' & B' & C' & K' & L1 & L2)|(Gd & _ & _)]).
+    2:{ rewrite (parse_rec_ts _ _ Hpc) in F. lia. }
+    split; [reflexivity|]. split; [exact I'|]. split; [exact V'|]. split; [exact St'|]. split; [exact B'|].
+    split; [|exact K'].
+    assert (Hd' : the_dir s' = dir) by (unfold the_dir; now rewrite C', Hd).
+    unfold Chain. rewrite Hd', St', L1, L2, N.min_id. split; [exact Hnd|]. split.
+    - (* the stamps not above the restored stamp are those of the rest of the stack *)
+      cbn [map rev] in Hst. rewrite <- A in Hst.
+      pose proof (StackOK_stamps _ _ _ _ _ G) as Hle.
+      unfold stamps_le in *.
+      pose proof (filter_filter_le (k_pst e) (k_st e) (map fst dir) ltac:(lia)) as Hf.
+      rewrite <- Hf, Hst, filter_app. cbn [filter].
+      replace (k_st e <=? k_pst e) with false by (symmetry; apply N.leb_gt; lia).
+      rewrite app_nil_r. apply filter_all_id. intros x Hx.
+      apply in_rev, in_map_iff in Hx as (e2 & <- & He2). apply N.leb_le.
+      eapply Forall_forall in Hle; [|exact He2]. exact Hle.
+    - rewrite <- (parse_rec_ts _ _ Hpc). exact G.
+  Qed.
+
+  (* an empty stack: the rollback is refused and nothing changes *)
+  Theorem chain_empty s mem : Chain s mem [] -> cv_rollback s = (s, Err EIo).
+  Proof.
+    intros (Hnd & Hst & _). unfold CvModel.cv_rollback, the_dir in *.
+    destruct (s_changes s) as [dir|]; [|reflexivity].
+    destruct (lookup_file dir (cv_stamp s)) as [bs|] eqn:E; [exfalso|reflexivity].
+    apply lookup_in in E. cbn in Hst. unfold stamps_le in Hst.
+    assert (Hin : In (cv_stamp s) (filter (fun x => x <=? cv_stamp s) (map fst dir))).
+    { apply filter_In. split; [apply in_map_iff; exists (cv_stamp s, bs); auto|apply N.leb_refl]. }
+    rewrite Hst in Hin. contradiction.
+  Qed.
+
+  (* ---- the record a commit writes, and where it is filed ------------------------------------------------------ *)
+  Lemma ser_parse s hd ents mem : InvG s hd ents mem -> s_prev_stored_len s <= len (vals mem) -> fits s ->
+    parse_change (ser_bytes s (ser_tv s mem)) =
+      Ok (mkChange T (cv_stamp s) (s_prev_stored_len s) (N.min (s_prev_stored_len s) (s_stored_len s))
+                   (ser_tv s mem) (s_prev_pushed s)).
+  Proof.
+    intros HI Bp (F1 & F2 & F3).
+    pose proof HI as (B1 & _ & _ & _ & _ & _ & _ & _ & _ & _ & _ & B12).
+    set (tc := s_prev_stored_len s - s_stored_len s).
+    set (tv := ser_tv s mem).
+    assert (Ltv : len tv = tc).
+    { unfold tv, ser_tv. fold tc. destruct (0 <? tc) eqn:E.
+      - apply N.ltb_lt in E. rewrite len_slice. subst tc. lia.
+      - apply N.ltb_ge in E. rewrite len_nil. lia. }
+    assert (Hstamp : cv_stamp s < two64).
+    { destruct B1 as (V & _). unfold valid_header in V. rewrite !andb_true_iff in V.
+      destruct V as ((_ & V) & _). now apply N.ltb_lt in V. }
+    replace (N.min (s_prev_stored_len s) (s_stored_len s)) with (s_prev_stored_len s - len tv)
+      by (rewrite Ltv; subst tc; lia).
+    unfold ser_bytes. fold tv. fold tc. rewrite <- Ltv. apply parse_ser; auto; try lia;
+      try (rewrite Ltv; subst tc; pose proof size_pos; nia).
+  Qed.
+
+  Lemma commit_dir s hd ents mem st hints s' wb :
+    InvG s hd ents mem -> s_ssc s <> 0 -> st < two64 ->
+    cv_commit s st hints = (s', Ok wb) ->
+    s_changes s' = save_change_file T s st (ser_bytes s (ser_tv s mem)) /\
+    s_prev_stored_len s' = s_stored_len s'.
+  Proof.
+    intros HI Hk Hst HC. unfold CvModel.cv_commit in HC.
+    replace (s_ssc s =? 0) with false in HC by (symmetry; now apply N.eqb_neq).
+    rewrite (serialize_eq _ _ _ _ HI) in HC.
+    set (s1 := set_roll s (s_ssc s) _) in HC.
+    assert (HI1 : InvG s1 hd ents mem) by (eapply InvG_same; [..|exact HI]; reflexivity).
+    pose proof (update_stamp_InvG s1 hd ents mem st HI1 Hst) as HI1'.
+    destruct (cv_write (update_stamp s1 st) hints) as [s2 r2] eqn:EW.
+    destruct (write_settled _ _ _ _ _ _ _ HI1' EW)
+      as [->|(wb' & ents' & -> & _ & _ & _ & _ & _ & _ & _ & _ & Q4)]; [discriminate|].
+    inversion HC; subst s' wb'. cbn [save_prev set_prev s_changes s_prev_stored_len s_stored_len].
+    split; [|reflexivity]. rewrite Q4. unfold update_stamp. destruct (_ =? st); reflexivity.
+  Qed.
+
+  (* ---- maintenance of the stack ------------------------------------------------------------------------------- *)
+  Lemma StackOK_ts dir mem cur lim stk : StackOK dir mem cur lim stk -> Forall (fun e => rec_ts (k_bs e) <= lim) stk.
+  Proof.
+    revert cur lim; induction stk as [|e rest IH]; intros cur lim H; [constructor|].
+    destruct H as (_ & _ & _ & _ & _ & F & G). constructor; [exact F|].
+    eapply Forall_impl; [|exact (IH _ _ G)]. cbn. intros x Hx. lia.
+  Qed.
+
+  Lemma RecOK_transfer mem mem' bs b pst X :
+    RecOK mem bs b pst -> rec_ts bs <= X -> take X (vals mem') = take X (vals mem) -> X <= len (vals mem') ->
+    RecOK mem' bs b pst.
+  Proof.
+    intros (ch & Hp & Hps & Hts & Hb & Hnil) Hx Ht Hl. rewrite (parse_rec_ts _ _ Hp) in Hx.
+    exists ch. repeat split; auto; [lia|].
+    rewrite Hb. f_equal.
+    rewrite <- (take_take (ch_truncated_start T ch) X (vals mem')) by lia.
+    rewrite Ht. symmetry. apply take_take. lia.
+  Qed.
+
+  Lemma StackOK_transfer dir dir' mem mem' X : forall stk cur lim,
+    StackOK dir mem cur lim stk -> lim <= X -> take X (vals mem') = take X (vals mem) -> X <= len (vals mem') ->
+    (forall e, In e stk -> lookup_file dir' (k_st e) = Some (k_bs e)) ->
+    StackOK dir' mem' cur lim stk.
+  Proof.
+    induction stk as [|e rest IH]; intros cur lim H Hx Ht Hl Hlk; [exact I|].
+    destruct H as (A & B & C & D & E & F & G). cbn [StackOK].
+    split; [exact A|]. split; [apply Hlk; now left|].
+    split; [apply (RecOK_transfer mem mem' (k_bs e) (k_b e) (k_pst e) X C); [lia|exact Ht|exact Hl]|].
+    split; [exact D|]. split; [exact E|]. split; [exact F|].
+    apply IH; auto; [lia|]. intros e2 He2. apply Hlk. now right.
+  Qed.
+
+  Lemma StackOK_lookups dir mem : forall stk cur lim, StackOK dir mem cur lim stk ->
+    forall e, In e stk -> lookup_file dir (k_st e) = Some (k_bs e).
+  Proof.
+    induction stk as [|e0 rest IH]; intros cur lim H e He; [contradiction|].
+    destruct H as (_ & B & _ & _ & _ & _ & G). destruct He as [<-|He]; [exact B|]. eapply IH; eauto.
+  Qed.
+
+  Lemma NoDup_fst_inj (dir : list (N * list N)) k v v' :
+    NoDup (map fst dir) -> In (k, v) dir -> In (k, v') dir -> v = v'.
+  Proof.
+    intros Hn H1 H2. apply (in_lookup _ _ _ Hn) in H1. apply (in_lookup _ _ _ Hn) in H2. congruence.
+  Qed.
+
+  Lemma NoDup_app_snoc {A} (l : list A) x : NoDup l -> ~ In x l -> NoDup (l ++ [x]).
+  Proof.
+    intros Hl Hx. apply NoDup_rev in Hl. rewrite <- (rev_involutive (l ++ [x])). apply NoDup_rev.
+    rewrite rev_app_distr. cbn. constructor; [now rewrite <- in_rev|exact Hl].
+  Qed.
+
+  Lemma StackOK_firstn dir mem : forall n stk cur lim,
+    StackOK dir mem cur lim stk -> StackOK dir mem cur lim (firstn n stk).
+  Proof.
+    induction n as [|n IH]; intros stk cur lim H; [exact I|].
+    destruct stk as [|e rest]; [exact I|]. cbn [firstn StackOK] in *.
+    destruct H as (A & B & C & D & E & F & G). repeat split; auto.
+  Qed.
+
+  Lemma map_fst_filter (f : N -> bool) (dir : list (N * list N)) :
+    map fst (filter (fun x => f (fst x)) dir) = filter f (map fst dir).
+  Proof.
+    induction dir as [|[k v] t IH]; [reflexivity|]. cbn [filter map fst].
+    destruct (f k); cbn [map fst]; now rewrite IH.
+  Qed.
+
+  Lemma NoDup_skipn {A} (l : list A) : forall n, NoDup l -> NoDup (skipn n l).
+  Proof.
+    induction l as [|x l IH]; intros n H; [now rewrite skipn_nil|].
+    destruct n as [|n]; [exact H|]. cbn [skipn]. apply IH. now inversion H.
+  Qed.
+
+  (* a commit with a stamp above the current one pushes its record and keeps the newest k-1 older ones *)
+  Theorem chain_commit s hd ents mem b stk st hints s' wb :
+    InvG s hd ents mem -> BaseOK s mem b -> Chain s mem stk -> s_ssc s <> 0 ->
+    cv_stamp s < st -> st < two64 -> fits s ->
+    cv_commit s st hints = (s', Ok wb) ->
+    exists ents' bs,
+      InvG s' (s_hdr s') ents' ents' /\ vals ents' = view s mem /\ view s' ents' = view s mem /\
+      cv_stamp s' = st /\ s_ssc s' = s_ssc s /\ BaseOK s' ents' (view s mem) /\
+      Chain s' ents' (mkSent st bs b (cv_stamp s) :: firstn (N.to_nat (s_ssc s - 1)) stk).
+  Proof.
+    intros HI HB (Hnd & Hstm & Hstk) Hk Hlt Hst Hfit HC.
+    pose proof HB as (Bp & Bb).
+    pose proof HI as (_ & _ & _ & _ & _ & _ & _ & _ & _ & _ & _ & B12).
+    destruct (commit_ok _ _ _ _ _ _ _ _ _ HI HB Hk Hst Hfit HC)
+      as [Hp|(wb' & ents' & dir' & bs & _ & I2 & M2 & V2 & L2 & P2 & St2 & K2 & B2' & C2 & Lk & Rec)]; [discriminate|].
+    destruct (commit_dir _ _ _ _ _ _ _ _ HI Hk Hst HC) as (Cd & Pp).
+    set (data := ser_bytes s (ser_tv s mem)) in *.
+    unfold save_change_file in Cd. fold (the_dir s) in Cd.
+    set (dirf := filter (fun f => (fst f <? st) && (fst f <=? cv_stamp s)) (the_dir s)) in *.
+    set (ex := len dirf - (s_ssc s - 1)) in *.
+    rewrite C2 in Cd. inversion Cd as [Hdir']. clear Cd.
+    assert (Hbs : bs = data).
+    { rewrite Hdir' in Lk. rewrite lookup_app_last in Lk; [now inversion Lk|].
+      apply Forall_drop. unfold dirf. apply Forall_forall. intros f Hf.
+      apply filter_In in Hf as [_ Hf]. apply andb_true_iff in Hf as [Hf _]. apply N.ltb_lt in Hf. lia. }
+    assert (Hfst : map fst dirf = rev (map k_st stk)).
+    { unfold dirf. rewrite <- Hstm. unfold stamps_le. rewrite <- map_fst_filter.
+      f_equal. apply filter_ext. intros [k v]. cbn [fst].
+      destruct (k <=? cv_stamp s) eqn:E; [|now rewrite andb_false_r].
+      apply N.leb_le in E. rewrite andb_true_r. apply N.ltb_lt. lia. }
+    assert (Hlen : len dirf = len stk).
+    { unfold len. rewrite <- (map_length fst dirf), Hfst, rev_length, map_length. reflexivity. }
+    set (kept := firstn (N.to_nat (s_ssc s - 1)) stk).
+    assert (Hkept : map fst (drop ex dirf) = rev (map k_st kept)).
+    { rewrite map_drop, Hfst. unfold drop. rewrite skipn_rev, map_length. unfold kept. rewrite <- firstn_map.
+      f_equal. subst ex. rewrite Hlen. unfold len.
+      destruct (Nat.le_gt_cases (length stk) (N.to_nat (s_ssc s - 1))) as [Hc|Hc].
+      - replace (N.to_nat (N.of_nat (length stk) - (s_ssc s - 1))) with O by lia.
+        rewrite Nat.sub_0_r. rewrite <- (map_length k_st stk). rewrite firstn_all.
+        symmetry. apply firstn_all2. rewrite map_length. lia.
+      - f_equal. lia. }
+    assert (Hd' : the_dir s' = drop ex dirf ++ [(st, bs)]).
+    { unfold the_dir. rewrite C2, Hdir', Hbs. reflexivity. }
+    assert (Hsub : forall x, In x (drop ex dirf) -> In x (the_dir s) /\ fst x <= cv_stamp s).
+    { intros x Hx. assert (Hx' : In x dirf).
+      { rewrite <- (take_drop ex dirf). apply in_or_app. now right. }
+      unfold dirf in Hx'. apply filter_In in Hx' as [Hx1 Hx2]. split; [exact Hx1|].
+      apply andb_true_iff in Hx2 as [_ Hx2]. now apply N.leb_le in Hx2. }
+    assert (Hnd' : NoDup (map fst (the_dir s'))).
+    { rewrite Hd', map_app. cbn [map fst]. apply NoDup_app_snoc.
+      - rewrite map_drop. apply NoDup_skipn. unfold dirf.
+        rewrite (map_fst_filter (fun k => (k <? st) && (k <=? cv_stamp s))). now apply NoDup_filter.
+      - intros Hin. apply in_map_iff in Hin as (x & Hx1 & Hx2). apply Hsub in Hx2 as [_ Hx2]. lia. }
+    exists ents', bs.
+    assert (Hview' : view s' ents' = view s mem).
+    { unfold view. rewrite L2, P2, app_nil_r, take_all by lia. exact V2. }
+    split; [exact I2|]. split; [exact V2|]. split; [exact Hview'|]. split; [exact St2|].
+    split; [exact K2|]. split; [exact B2'|].
+    unfold Chain. rewrite St2, Pp, L2, N.min_id. split; [exact Hnd'|]. split.
+    - rewrite Hd'. unfold stamps_le. rewrite map_app, Hkept. cbn [map fst rev k_st].
+      apply filter_all_id. intros x Hx. apply N.leb_le. apply in_app_or in Hx as [Hx|[<-|[]]]; [|lia].
+      rewrite <- Hkept in Hx. apply in_map_iff in Hx as (y & <- & Hy). apply Hsub in Hy as [_ Hy]. lia.
+    - cbn [StackOK k_st k_bs k_b k_pst]. split; [reflexivity|].
+      split; [rewrite Hd'; apply lookup_app_last; apply Forall_forall; intros x Hx; apply Hsub in Hx as [_ Hx]; lia|].
+      split; [exact Rec|]. split; [exact Hlt|]. split; [exact Hst|].
+      assert (Hts : rec_ts bs = N.min (s_prev_stored_len s) (s_stored_len s)).
+      { rewrite Hbs. unfold rec_ts, data. now rewrite (ser_parse _ _ _ _ HI Bp Hfit). }
+      split.
+      { destruct Rec as (ch & Hpc & _ & Hle & _). rewrite (parse_rec_ts _ _ Hpc). exact Hle. }
+      (* the older records stay valid over the new pages *)
+      rewrite Hts.
+      assert (Hx : take (s_stored_len s) (vals ents') = take (s_stored_len s) (vals mem)).
+      { rewrite V2. unfold view. rewrite take_app_le by (rewrite len_take; lia). apply take_take. lia. }
+      eapply (StackOK_transfer (the_dir s) (the_dir s') mem ents' (s_stored_len s) kept).
+      + apply StackOK_firstn. rewrite N.min_comm. exact Hstk.
+      + lia.
+      + exact Hx.
+      + rewrite V2. unfold view. rewrite len_app, len_take. lia.
+      + intros e He.
+        assert (Hold : lookup_file (the_dir s) (k_st e) = Some (k_bs e)).
+        { eapply StackOK_lookups; [exact Hstk|]. unfold kept in He.
+          rewrite <- (firstn_skipn (N.to_nat (s_ssc s - 1)) stk). apply in_or_app. now left. }
+        apply lookup_in in Hold.
+        assert (Hin : In (k_st e) (map fst (drop ex dirf))).
+        { rewrite Hkept. apply -> in_rev. apply in_map. exact He. }
+        apply in_map_iff in Hin as ([k v] & Hk1 & Hk2). cbn [fst] in Hk1. subst k.
+        destruct (Hsub _ Hk2) as [Hk3 _].
+        assert (v = k_bs e) by (exact (NoDup_fst_inj (the_dir s) (k_st e) v (k_bs e) Hnd Hk3 Hold)). subst v.
+        apply in_lookup; [exact Hnd'|]. rewrite Hd'. apply in_or_app. now left.
+  Qed.
+
+  (* ---- the reference of C04/C16: contents + stamp + baseline + stack of committed snapshots ------------------- *)
+  Record sspec := mkSS { ss_cur : list T; ss_stamp : N; ss_base : list T; ss_undo : list (list T * N) }.
+
+  (* rollback_before on the reference: pop while the stamp is not below the target *)
+  Fixpoint ss_rb (undo : list (list T * N)) (cur : list T) (stamp : N) (base : list T) (t : N) : sspec :=
+    match undo with
+    | [] => mkSS cur stamp base []
+    | (c, st) :: rest => if stamp <? t then mkSS cur stamp base undo else ss_rb rest c st c t
+    end.
+
+  Definition ss_step (k : N) (a : sspec) (o : op) : sspec :=
+    match o with
+    | Push vs => mkSS (ss_cur a ++ vs) (ss_stamp a) (ss_base a) (ss_undo a)
+    | Trunc n => mkSS (if n <? len (ss_cur a) then take n (ss_cur a) else ss_cur a) (ss_stamp a) (ss_base a) (ss_undo a)
+    | StampedWrite st _ =>
+        mkSS (ss_cur a) st (ss_cur a) (firstn (N.to_nat k) ((ss_base a, ss_stamp a) :: ss_undo a))
+    | Rollback => match ss_undo a with (c, st) :: rest => mkSS c st c rest | [] => a end
+    | RollbackBefore t => ss_rb (ss_undo a) (ss_cur a) (ss_stamp a) (ss_base a) t
+    | _ => a
+    end.
+  Definition ss_run (k : N) (a : sspec) (h : list op) : sspec := fold_left (ss_step k) h a.
+
+  Definition snap (e : sent) : list T * N := (k_b e, k_pst e).
+
+  Definition RC (s : cvs) (a : sspec) : Prop :=
+    exists hd ents mem stk, InvG s hd ents mem /\ BaseOK s mem (ss_base a) /\ Chain s mem stk /\
+      view s mem = ss_cur a /\ cv_stamp s = ss_stamp a /\ map snap stk = ss_undo a.
+
+  (* the operations of a commit/rollback history outside the known class: a truncation must not go below the
+     truncation start of the retained record of the current stamp (decidable: rollback_refuses), commits use
+     increasing stamps *)
+  Definition cop_ok (s : cvs) (o : op) : Prop :=
+    match o with
+    | Push _ | Rollback | RollbackBefore _ => True
+    | Trunc n => rollback_refuses (cv_truncate s n) = false
+    | StampedWrite st _ => cv_stamp s < st /\ st < two64 /\ fits s
+    | _ => False
+    end.
+  Fixpoint chain_hist (s : cvs) (h : list op) : Prop :=
+    match h with
+    | [] => True
+    | o :: t => cop_ok s o /\ chain_hist (fst (cv_step s o)) t
+    end.
+
+  Lemma view_unique s hd ents mem hd' ents' mem' :
+    InvG s hd ents mem -> InvG s hd' ents' mem' -> view s mem = view s mem'.
+  Proof.
+    intros H1 H2. pose proof (collect_view _ _ _ _ H1) as C1. rewrite (collect_view _ _ _ _ H2) in C1.
+    now inversion C1.
+  Qed.
+
+  Lemma Chain_same s s' mem stk :
+    s_changes s' = s_changes s -> s_hdr s' = s_hdr s -> s_stored_len s' = s_stored_len s ->
+    s_prev_stored_len s' = s_prev_stored_len s -> Chain s mem stk -> Chain s' mem stk.
+  Proof. unfold Chain, the_dir, cv_stamp. intros -> -> -> ->. auto. Qed.
+
+  Lemma rb_loop_chain t : forall stk s a hd ents mem,
+    InvG s hd ents mem -> BaseOK s mem (ss_base a) -> Chain s mem stk ->
+    view s mem = ss_cur a -> cv_stamp s = ss_stamp a -> map snap stk = ss_undo a ->
+    exists s', rb_loop T size dec s t (map k_st stk) = (s', Ok tt) /\
+      RC s' (ss_rb (ss_undo a) (ss_cur a) (ss_stamp a) (ss_base a) t) /\ s_ssc s' = s_ssc s.
+  Proof.
+    induction stk as [|e rest IH]; intros s a hd ents mem HI HB HC Hv Hs Hu.
+    - cbn [map rb_loop]. exists s. split; [reflexivity|]. split; [|reflexivity].
+      cbn in Hu. rewrite <- Hu. cbn [ss_rb]. exists hd, ents, mem, [].
+      cbn [ss_base ss_cur ss_stamp ss_undo map].
+      repeat (first [assumption | reflexivity | split]).
+    - cbn [map rb_loop]. cbn [map] in Hu. rewrite <- Hu. cbn [ss_rb snap]. rewrite <- Hs.
+      destruct (cv_stamp s <? t) eqn:Et.
+      + exists s. split; [reflexivity|]. split; [|reflexivity].
+        exists hd, ents, mem, (e :: rest). cbn [ss_base ss_cur ss_stamp ss_undo map snap].
+        repeat (first [assumption | reflexivity | split]).
+      + pose proof HC as (_ & _ & (A & _)). rewrite A, N.eqb_refl. cbn [negb].
+        destruct (cv_rollback s) as [s1 r1] eqn:ER.
+        destruct (chain_rollback _ _ _ _ _ _ _ _ HI HC ER) as (-> & I1 & V1 & S1 & B1 & C1 & K1).
+        destruct (IH s1 (mkSS (k_b e) (k_pst e) (k_b e) (map snap rest)) hd ents mem I1 B1 C1 V1 S1 eq_refl)
+          as (s' & L & R' & K').
+        exists s'. split; [exact L|]. split; [exact R'|]. congruence.
+  Qed.
+
+  (* one step of a commit/rollback history refines the snapshot-stack reference *)
+  Theorem chain_step s a o s' r :
+    RC s a -> s_ssc s <> 0 -> cop_ok s o -> cv_step s o = (s', r) ->
+    r = Panic \/
+    (RC s' (ss_step (s_ssc s) a o) /\ s_ssc s' = s_ssc s /\
+     match o with
+     | Rollback => r = match ss_undo a with [] => Err EIo | _ => Ok false end
+     | RollbackBefore _ => r = Ok false \/ (r = Err EIo /\ s_changes s = None)
+     | _ => exists b, r = Ok b
+     end).
+  Proof.
+    intros (hd & ents & mem & stk & HI & HB & HC & Hv & Hs & Hu) Hk Hok HS.
+    destruct o as [vs|n|hints|hints| | |st hints| |t]; cbn [cop_ok] in Hok; try contradiction;
+      cbn [CvModel.cv_step] in HS.
+    - (* Push *)
+      inversion HS; subst s' r. right. split; [|split; [reflexivity|eauto]].
+      exists hd, ents, mem, stk. cbn [ss_step ss_cur ss_stamp ss_base ss_undo].
+      split; [exact HI|]. split; [exact HB|]. split; [eapply Chain_same; [..|exact HC]; reflexivity|].
+      split; [|auto]. unfold view. cbn. rewrite <- Hv. unfold view. now rewrite app_assoc.
+    - (* Trunc *)
+      inversion HS; subst s' r. right. split; [|split; [|eauto]].
+      2:{ destruct (edit_step s hd ents mem (Trunc n) HI I) as (_ & (_ & _ & _ & K & _) & _). exact K. }
+      destruct (edit_step s hd ents mem (Trunc n) HI I) as (I1 & (S1 & S2 & S3 & S4 & S5) & L1 & _).
+      cbn [CvModel.cv_step fst] in *.
+      exists hd, ents, mem, stk. cbn [ss_step ss_cur ss_stamp ss_base ss_undo].
+      split; [exact I1|]. split; [unfold BaseOK; now rewrite S2, S3|].
+      split.
+      { destruct HC as (Hnd & Hstm & Hstk). unfold Chain, the_dir, cv_stamp. rewrite S5, S1, S3.
+        fold (cv_stamp s). fold (the_dir s). split; [exact Hnd|]. split; [exact Hstm|].
+        destruct stk as [|e rest]; [exact I|].
+        destruct Hstk as (A & B & C & D & E & F & G). cbn [StackOK]. repeat split; auto.
+        unfold rollback_refuses in Hok. unfold cv_stamp in Hok. rewrite S5, S1 in Hok. fold (cv_stamp s) in Hok.
+        assert (Hd : s_changes s = Some (the_dir s)).
+        { unfold the_dir in *. destruct (s_changes s); [reflexivity|]. cbn in B. discriminate. }
+        rewrite Hd, <- A, B in Hok. destruct C as (ch & Hp & _). rewrite Hp in Hok.
+        apply N.ltb_ge in Hok. rewrite (parse_rec_ts _ _ Hp) in *. lia. }
+      split; [|rewrite <- Hs; unfold cv_stamp; rewrite S1; auto].
+      (* the view after a truncation, through the C03 refinement *)
+      assert (HR : R s (mkSpec (view s mem) (cv_stamp s) (vals ents) (h_stamp hd))).
+      { exists hd, ents, mem. split; [exact HI|]. cbn. auto. }
+      destruct (step_R s _ (Trunc n) _ _ HR I eq_refl) as [Hp|(b0 & _ & (hd2 & ents2 & mem2 & I2 & V2 & _))];
+        [discriminate|].
+      cbn [CvModel.cv_step spec_step a_cur] in *. rewrite <- Hv.
+      rewrite (view_unique _ _ _ _ _ _ _ I1 I2). symmetry. exact V2.
+    - (* commit *)
+      destruct Hok as (Hlt & Hst & Hfit).
+      destruct (commit_ok _ _ _ _ _ _ _ _ _ HI HB Hk Hst Hfit HS) as [->|(wb & ents' & dir' & bs & -> & _)];
+        [now left|right].
+      destruct (chain_commit _ _ _ _ _ _ _ _ _ _ HI HB HC Hk Hlt Hst Hfit HS)
+        as (ents2 & bs2 & I2 & V2 & W2 & St2 & K2 & B2 & C2).
+      split; [|split; [exact K2|eauto]].
+      exists (s_hdr s'), ents2, ents2, (mkSent st bs2 (ss_base a) (cv_stamp s) :: firstn (N.to_nat (s_ssc s - 1)) stk).
+      cbn [ss_step ss_cur ss_stamp ss_base ss_undo].
+      split; [exact I2|]. split; [rewrite <- Hv; exact B2|]. split; [exact C2|].
+      split; [rewrite W2; exact Hv|]. split; [exact St2|].
+      replace (N.to_nat (s_ssc s)) with (S (N.to_nat (s_ssc s - 1))) by lia.
+      cbn [map firstn snap k_b k_pst]. rewrite Hs, <- Hu, firstn_map. reflexivity.
+    - (* rollback *)
+      unfold unit_res in HS. destruct (cv_rollback s) as [s1 r1] eqn:ER. right.
+      destruct stk as [|e rest].
+      + rewrite (chain_empty _ _ HC) in ER. inversion ER; subst s1 r1. inversion HS; subst s' r.
+        cbn in Hu. rewrite <- Hu. cbn [ss_step]. rewrite <- Hu.
+        split; [|split; reflexivity].
+        exists hd, ents, mem, []. repeat (first [assumption | reflexivity | split]).
+      + destruct (chain_rollback _ _ _ _ _ _ _ _ HI HC ER) as (-> & I1 & V1 & S1 & B1 & C1 & K1).
+        inversion HS; subst s' r. cbn [map] in Hu. cbn [ss_step]. rewrite <- Hu. cbn [snap].
+        split; [|split; [exact K1|reflexivity]].
+        exists hd, ents, mem, rest. cbn [ss_base ss_cur ss_stamp ss_undo].
+        repeat (first [assumption | reflexivity | split]).
+    - (* rollback_before *)
+      unfold unit_res, cv_rollback_before in HS. right.
+      destruct (s_changes s) as [dir|] eqn:Ed.
+      + pose proof HC as (_ & Hstm & _). unfold the_dir in Hstm. rewrite Ed in Hstm.
+        unfold stamps_le in Hstm. rewrite Hstm, rev_involutive in HS.
+        destruct (rb_loop_chain t stk s a hd ents mem HI HB HC Hv Hs Hu) as (s2 & L & R2 & K2).
+        rewrite L in HS. inversion HS; subst s' r. split; [exact R2|]. split; [exact K2|now left].
+      + inversion HS; subst s' r.
+        assert (stk = []).
+        { destruct HC as (_ & Hstm & _). unfold the_dir in Hstm. rewrite Ed in Hstm. cbn in Hstm.
+          destruct stk as [|e rest]; [reflexivity|]. cbn in Hstm. destruct (rev (map k_st rest)); discriminate. }
+        subst stk. cbn in Hu. cbn [ss_step]. rewrite <- Hu. cbn [ss_rb].
+        split; [|split; [reflexivity|now right]].
+        exists hd, ents, mem, []. cbn [ss_base ss_cur ss_stamp ss_undo map].
+        repeat (first [assumption | reflexivity | split]).
+  Qed.
+
+  (* ---- all commit/rollback histories outside the known class ---------------------------------------------------- *)
+  Theorem chain_run : forall h s a, RC s a -> s_ssc s <> 0 -> chain_hist s h -> no_panic s h ->
+    RC (cv_run s h) (ss_run (s_ssc s) a h) /\ s_ssc (cv_run s h) = s_ssc s.
+  Proof.
+    induction h as [|o t IH]; intros s a HR Hk Hch Hnp; [split; [exact HR|reflexivity]|].
+    destruct Hch as [Ho Ht]. destruct Hnp as [Hn1 Hn2].
+    destruct (cv_step s o) as [s' r] eqn:ES. cbn [fst snd] in *.
+    destruct (chain_step s a o s' r HR Hk Ho ES) as [->|(R' & K' & _)]; [congruence|].
+    unfold CvModel.cv_run, ss_run. cbn [fold_left]. rewrite ES. cbn [fst].
+    destruct (IH s' (ss_step (s_ssc s) a o) R' ltac:(now rewrite K') Ht Hn2) as [IH1 IH2].
+    rewrite K' in IH1. split; [exact IH1|]. unfold CvModel.cv_run in IH2. now rewrite IH2.
+  Qed.
+
+  Lemma RC_collect s a : RC s a -> cv_collect T size dec decompress s = Ok (ss_cur a) /\ cv_stamp s = ss_stamp a.
+  Proof.
+    intros (hd & ents & mem & stk & HI & _ & _ & Hv & Hs & _).
+    split; [rewrite (collect_view _ _ _ _ HI); now rewrite Hv|exact Hs].
+  Qed.
+
+  (* a single rollback, without the Panic alternative *)
+  Lemma rollback_RC s a s' r : RC s a -> cv_step s Rollback = (s', r) ->
+    RC s' (ss_step (s_ssc s) a Rollback) /\ s_ssc s' = s_ssc s /\
+    r = match ss_undo a with [] => Err EIo | _ => Ok false end /\
+    (ss_undo a = [] -> s' = s).
+  Proof.
+    intros (hd & ents & mem & stk & HI & HB & HC & Hv & Hs & Hu) HS.
+    cbn [CvModel.cv_step] in HS. unfold unit_res in HS. destruct (cv_rollback s) as [s1 r1] eqn:ER.
+    destruct stk as [|e rest].
+    - rewrite (chain_empty _ _ HC) in ER. inversion ER; subst s1 r1. inversion HS; subst s' r.
+      cbn in Hu. cbn [ss_step]. rewrite <- Hu.
+      split; [|repeat split; reflexivity].
+      exists hd, ents, mem, []. repeat (first [assumption | reflexivity | split]).
+    - destruct (chain_rollback _ _ _ _ _ _ _ _ HI HC ER) as (-> & I1 & V1 & S1 & B1 & C1 & K1).
+      inversion HS; subst s' r. cbn [map] in Hu. cbn [ss_step]. rewrite <- Hu. cbn [snap].
+      split; [|split; [exact K1|split; [reflexivity|discriminate]]].
+      exists hd, ents, mem, rest. cbn [ss_base ss_cur ss_stamp ss_undo].
+      repeat (first [assumption | reflexivity | split]).
+  Qed.
+
+  (* ---- C16_comp_count ------------------------------------------------------------------------------------------- *)
+  Fixpoint rollbacks_ok (s : cvs) (n : nat) : Prop :=
+    match n with
+    | O => True
+    | S m => snd (cv_step s Rollback) = Ok false /\ rollbacks_ok (fst (cv_step s Rollback)) m
+    end.
+
+  (* as many consecutive rollbacks succeed as the reference has snapshots, each landing on the next snapshot,
+     and the following one is refused and changes nothing *)
+  Theorem count_rollbacks : forall n s a, RC s a -> length (ss_undo a) = n ->
+    rollbacks_ok s n /\
+    RC (cv_run s (repeat Rollback n)) (ss_run (s_ssc s) a (repeat Rollback n)) /\
+    ss_undo (ss_run (s_ssc s) a (repeat Rollback n)) = [] /\
+    cv_step (cv_run s (repeat Rollback n)) Rollback = (cv_run s (repeat Rollback n), Err EIo).
+  Proof.
+    induction n as [|n IH]; intros s a HR Hn.
+    - cbn [repeat CvModel.cv_run ss_run fold_left rollbacks_ok].
+      destruct (ss_undo a) eqn:Eu; [|discriminate].
+      split; [exact I|]. split; [exact HR|]. split; [reflexivity|].
+      destruct (cv_step s Rollback) as [s' r] eqn:ES.
+      destruct (rollback_RC s a s' r HR ES) as (_ & _ & Hr & Hs). rewrite Eu in Hr, Hs. now rewrite Hr, (Hs eq_refl).
+    - destruct (cv_step s Rollback) as [s' r] eqn:ES.
+      destruct (rollback_RC s a s' r HR ES) as (R' & K' & Hr & _).
+      destruct (ss_undo a) as [|[c st] rest] eqn:Eu; [discriminate|].
+      assert (Hn' : length (ss_undo (ss_step (s_ssc s) a Rollback)) = n).
+      { cbn [ss_step]. rewrite Eu. cbn in *. lia. }
+      destruct (IH s' _ R' Hn') as (I1 & I2 & I3 & I4). rewrite K' in *.
+      cbn [repeat rollbacks_ok]. unfold CvModel.cv_run, ss_run in *. cbn [fold_left]. rewrite ES. cbn [fst snd].
+      split; [split; [exact Hr|exact I1]|]. split; [exact I2|]. split; [exact I3|exact I4].
+  Qed.
+
+  Definition is_pc (o : op) : Prop := match o with Push _ | StampedWrite _ _ => True | _ => False end.
+  Fixpoint commits (h : list op) : nat :=
+    match h with [] => O | StampedWrite _ _ :: t => S (commits t) | _ :: t => commits t end.
+
+  Lemma ss_count k : forall h a, Forall is_pc h -> (length (ss_undo a) <= N.to_nat k)%nat ->
+    length (ss_undo (ss_run k a h)) = Nat.min (N.to_nat k) (length (ss_undo a) + commits h).
+  Proof.
+    induction h as [|o t IH]; intros a Hp Hl.
+    - cbn. lia.
+    - inversion Hp as [|? ? Ho Ht]; subst. unfold ss_run. cbn [fold_left]. fold (ss_run k (ss_step k a o) t).
+      destruct o; try contradiction.
+      + rewrite IH; auto.
+      + rewrite IH; auto; cbn [ss_step ss_undo commits]; rewrite firstn_length; cbn [length]; lia.
+  Qed.
+
+  (* the initial import with retention k *)
+  Lemma init_RC k s0 : cv_import_k T size fmt vver k None [] [] = Ok s0 ->
+    RC s0 (mkSS [] 0 [] []) /\ s_ssc s0 = k.
+  Proof.
+    unfold cv_import_k. destruct (cv_import T size fmt vver [] []) as [s1| |] eqn:E; try discriminate.
+    cbn [bind]. intros H. inversion H; subst s0. clear H.
+    destruct (init_R s1 E) as (hd & ents & mem & HI & R1 & R2 & R3 & R4).
+    assert (F : s_prev_pushed s1 = [] /\ s_prev_stored_len s1 = 0 /\ s_changes s1 = None).
+    { clear - E. unfold cv_import in E. change (len (@nil cell)) with 0 in E.
+      change ((0 <? 0) && (0 <? HEADER_OFFSET)) with false in E. cbv iota in E.
+      change (0 =? 0) with true in E. cbv iota in E.
+      destruct (lift_r _) as [d| |]; cbn [bind] in E; try discriminate.
+      unfold pages_import, decode_pages in E. cbn [chunks chunks_f length map collect_res bind] in E.
+      inversion E. cbn. auto. }
+    destruct F as (F1 & F2 & F3).
+    split; [|reflexivity].
+    exists hd, ents, mem, []. cbn [ss_base ss_cur ss_stamp ss_undo map].
+    split; [eapply InvG_same; [..|exact HI]; reflexivity|].
+    split.
+    { unfold BaseOK. cbn [set_roll s_prev_stored_len s_prev_pushed]. rewrite F1, F2, take_0. split; [lia|reflexivity]. }
+    split.
+    { unfold Chain, the_dir. cbn [set_roll s_changes]. cbn. repeat split; constructor. }
+    split; [unfold view in *; cbn [set_roll s_stored_len s_pushed]; symmetry; exact R1|].
+    split; [symmetry; exact R2|reflexivity].
+  Qed.
+
+  (* C16_comp_count: after any push/commit history (n commits, increasing stamps, retention k > 0) exactly
+     min(k, n) consecutive rollbacks succeed, their results follow the snapshot stack, the next one is refused *)
+  Theorem comp_count k s0 h :
+    cv_import_k T size fmt vver k None [] [] = Ok s0 -> k <> 0 ->
+    Forall is_pc h -> chain_hist s0 h -> no_panic s0 h ->
+    let s := cv_run s0 h in
+    let a := ss_run k (mkSS [] 0 [] []) h in
+    let m := Nat.min (N.to_nat k) (commits h) in
+    rollbacks_ok s m /\
+    RC (cv_run s (repeat Rollback m)) (ss_run k a (repeat Rollback m)) /\
+    cv_step (cv_run s (repeat Rollback m)) Rollback = (cv_run s (repeat Rollback m), Err EIo).
+  Proof.
+    intros Hi Hk Hp Hch Hnp. cbv zeta.
+    destruct (init_RC k s0 Hi) as (R0 & K0).
+    destruct (chain_run h s0 _ R0 ltac:(now rewrite K0) Hch Hnp) as (R1 & K1). rewrite K0 in *.
+    pose proof (ss_count k h (mkSS [] 0 [] []) Hp ltac:(cbn; lia)) as Hc. cbn [ss_undo length] in Hc.
+    rewrite Nat.add_0_l in Hc.
+    destruct (count_rollbacks _ _ _ R1 Hc) as (C1 & C2 & _ & C4). rewrite K1 in C2.
+    split; [exact C1|]. split; [exact C2|exact C4].
+  Qed.
+
+  (* ---- rollback_before: structure of a refusal ------------------------------------------------------------------ *)
+  (* whatever the records are: when the walk stops with an error, the state is the one reached by the
+     rollbacks that succeeded before it (each of which is exact by chain_rollback when its record is valid) *)
+  Inductive rolled : cvs -> cvs -> Prop :=
+  | rolled_refl s : rolled s s
+  | rolled_step s s1 s2 : cv_rollback s = (s1, Ok tt) -> rolled s1 s2 -> rolled s s2.
+
+  Lemma rb_loop_rolled t : forall stamps s s' r, rb_loop T size dec s t stamps = (s', r) -> rolled s s'.
+  Proof.
+    induction stamps as [|fs rest IH]; intros s s' r H; cbn [rb_loop] in H.
+    - inversion H. constructor.
+    - destruct (cv_stamp s <? t); [inversion H; constructor|].
+      destruct (negb (fs =? cv_stamp s)); [inversion H; constructor|].
+      destruct (cv_rollback s) as [s1 r1] eqn:ER. destruct r1 as [u|e|].
+      + destruct u. eapply rolled_step; [exact ER|]. eapply IH; eauto.
+      + inversion H; subst. rewrite (rollback_fail_unchanged _ _ _ ER). constructor.
+      + inversion H; subst. unfold CvModel.cv_rollback, cv_undo in ER.
+        destruct (s_changes s); [|discriminate]. destruct (lookup_file _ _); [|discriminate].
+        destruct (parse_change _); try discriminate.
+        * destruct (_ <? _); [discriminate|]. destruct (ch_truncated_values T _); discriminate.
+        * inversion ER. constructor.
+  Qed.
+
+  Theorem rollback_before_passed s t s' r : cv_rollback_before T size dec s t = (s', r) -> rolled s s'.
+  Proof.
+    unfold cv_rollback_before. destruct (s_changes s); [|intros H; inversion H; constructor].
+    apply rb_loop_rolled.
+  Qed.
+
+  (* rollback_before outside the known class: it never fails midway and ends exactly where the reference ends *)
+  Theorem rollback_before_RC s a t s' r : RC s a -> cv_step s (RollbackBefore t) = (s', r) ->
+    RC s' (ss_rb (ss_undo a) (ss_cur a) (ss_stamp a) (ss_base a) t) /\ s_ssc s' = s_ssc s /\
+    (r = Ok false \/ (r = Err EIo /\ s_changes s = None /\ s' = s)).
+  Proof.
+    intros (hd & ents & mem & stk & HI & HB & HC & Hv & Hs & Hu) HS.
+    cbn [CvModel.cv_step] in HS. unfold unit_res, cv_rollback_before in HS.
+    destruct (s_changes s) as [dir|] eqn:Ed.
+    - pose proof HC as (_ & Hstm & _). unfold the_dir in Hstm. rewrite Ed in Hstm.
+      unfold stamps_le in Hstm. rewrite Hstm, rev_involutive in HS.
+      destruct (rb_loop_chain t stk s a hd ents mem HI HB HC Hv Hs Hu) as (s2 & L & R2 & K2).
+      rewrite L in HS. inversion HS; subst s' r. split; [exact R2|]. split; [exact K2|now left].
+    - inversion HS; subst s' r.
+      assert (stk = []).
+      { destruct HC as (_ & Hstm & _). unfold the_dir in Hstm. rewrite Ed in Hstm. cbn in Hstm.
+        destruct stk as [|e rest]; [reflexivity|]. cbn in Hstm. destruct (rev (map k_st rest)); discriminate. }
+      subst stk. cbn in Hu. rewrite <- Hu. cbn [ss_rb].
+      split; [|split; [reflexivity|right; auto]].
+      exists hd, ents, mem, []. cbn [ss_base ss_cur ss_stamp ss_undo map].
+      repeat (first [assumption | reflexivity | split]).
+  Qed.
+
+  (* where the reference walk ends: below the target, or on the oldest retained snapshot; the snapshots it
+     passed (all with stamps not below the target) are popped *)
+  Lemma ss_rb_ends t : forall undo cur stamp base,
+    let a' := ss_rb undo cur stamp base t in
+    (ss_stamp a' < t \/ ss_undo a' = []) /\
+    exists pre, undo = pre ++ ss_undo a' /\
+      (pre = [] -> ss_cur a' = cur /\ ss_stamp a' = stamp) /\
+      (pre <> [] -> t <= stamp /\ exists pre', pre = pre' ++ [(ss_cur a', ss_stamp a')]).
+  Proof.
+    induction undo as [|[c st] rest IH]; intros cur stamp base; cbn [ss_rb].
+    - cbn. split; [now right|]. exists []. split; [reflexivity|]. split; [auto|congruence].
+    - destruct (stamp <? t) eqn:E.
+      + cbn. split; [left; now apply N.ltb_lt|]. exists []. split; [reflexivity|]. split; [auto|congruence].
+      + apply N.ltb_ge in E. specialize (IH c st c). cbv zeta in IH.
+        destruct IH as (IH1 & pre & Hp & Hn & Hc). split; [exact IH1|].
+        exists ((c, st) :: pre). split; [cbn; now rewrite <- Hp|]. split; [discriminate|].
+        intros _. split; [exact E|].
+        destruct pre as [|x pre0].
+        * destruct (Hn eq_refl) as (-> & ->). exists []. reflexivity.
+        * destruct (Hc ltac:(discriminate)) as (_ & pre' & Hpre). exists ((c, st) :: pre'). cbn. now rewrite Hpre.
   Qed.
 End Inv.
